@@ -1,7 +1,7 @@
 from props_common import BASE_TB
 
 PROP = {
-    "modules": ["YorkieModel.Props.C08"],
+    "modules": ["YorkieModel.Props.C08", "YorkieModel.Props.C08Json"],
     "engines": [
         {"name": "docupd", "quick": {"n": 1200, "workers": 8}, "thorough": {"n": 60000, "workers": 14}},
         {"name": "crdt", "quick": {"n": 600, "workers": 6}, "thorough": {"n": 30000, "workers": 14}},
